@@ -4,7 +4,7 @@ from checklib import core
 from checklib.props import stm_common as sc
 
 PID = "C17"
-BINS = ["waitobj", "e2e"]
+BINS = ["waitobj", "e2e", "finprobe"]
 
 
 def setup():
@@ -71,6 +71,18 @@ def run(ctx):
     stalls = [c for c in agg["driver_failure"] if lost_wakeup(c["failure"])]
     broken = list(proof["problems"])
     stall_cases = [v for v in bad if v.startswith("STALL")]
+    # predicate faithfulness (the model's premise "the evaluated predicate is the published state"):
+    # the real finality loop, free-running with the real parker, is notified while a silent holder
+    # (a stale / duplicate claim, which never notifies) has the candidate's lock
+    nprobe = 8 if ctx.quick else 64
+    rc, pout = core.sh([bins["finprobe"], str(ctx.seed), str(nprobe)], timeout=120)
+    if rc != 0:
+        raise RuntimeError("finprobe failed: " + pout[-2000:])
+    probe = [tuple(int(x) for x in l.split()) for l in pout.splitlines() if l.strip()]
+    slow = [(h, w) for h, w in probe if w >= 2000]
+    if slow:
+        ctx.violation("the finality coordinator slept through a notification that arrived while a silent holder had the candidate's lock: it woke %d ms after the release (stall timer)" % slow[0][1],
+                      dict(cases=[dict(hold_ms=h, waited_ms=w) for h, w in slow[:3]], replay="target/release/finprobe %d %d" % (ctx.seed, nprobe), seed=ctx.seed), True)
     if stall_cases or stalls:
         what = "a waiter slept through a notification: progress needed the stall timeout"
         detail = stall_cases[:3] or [sc.replay_cmd(stalls[0]), stalls[0]["failure"]]
@@ -91,7 +103,7 @@ def run(ctx):
         evaluations=ncases + agg["cases"], distinct_nontrivial=len({re.sub(r"\d{9,}", "A", "\n".join(l for l in c.splitlines() if not l.startswith("#"))) for c in cases if c.strip()}),
         traces_validated_against_impl=kinds.get("ACCEPT", 0),
         rule="seeded schedules of the real WaitSlot (1 waiter, 1-2 notifiers, optional re-blocker, 1-2 rounds, producer possibly before registration) under the deterministic driver without timeouts; every trace replayed by the extracted Coq acceptor; distinct = distinct event trace; plus driven scheduler runs in which any need for the stall timer is reported",
-        acceptor_verdicts=kinds, notification_windows_hit=win, scheduler_runs=agg["cases"], scheduler_stalls=len(stalls),
+        acceptor_verdicts=kinds, notification_windows_hit=win, finality_predicate_probes=len(probe), finality_predicate_probe_max_wait_ms=max([w for _, w in probe] or [0]), scheduler_runs=agg["cases"], scheduler_stalls=len(stalls),
         samples=[cases[i] for i in range(min(2, len(cases)))],
     )
     return ctx.finish("proof", cov, [
